@@ -237,6 +237,10 @@ void async_queue_clear(async_queue_t* queue) {
     queue->head = 0;
     queue->tail = 0;
     queue->count = 0;
+    /* there is space now: a writer blocked on the full queue must not wait for a dequeue that may never come */
+    if (queue->flags & ASYNC_QUEUE_BLOCK_WRITER) {
+        platform_event_set(&queue->not_full);
+    }
     platform_mutex_unlock(&queue->mutex);
 }
 
